@@ -96,38 +96,48 @@ pub(super) async fn apply_operations(
 
 /// Apply a [`SyncOp`] to the TaskDb's set of tasks (without recording it in the list of operations)
 pub(super) async fn apply_op(txn: &mut dyn StorageTxn, op: &SyncOp) -> Result<()> {
+    if try_apply_op(txn, op).await? {
+        return Ok(());
+    }
+    match op {
+        SyncOp::Create { uuid } => Err(Error::Database(format!("Task {uuid} already exists"))),
+        SyncOp::Delete { uuid } => Err(Error::Database(format!("Task {uuid} does not exist"))),
+        SyncOp::Update { uuid, .. } => Err(Error::Database(format!("Task {uuid} does not exist"))),
+    }
+}
+
+/// Apply a [`SyncOp`] to the TaskDb's set of tasks (without recording it in the list of operations),
+/// if it is valid in the current state.
+///
+/// Returns `Ok(false)`, having changed nothing, if the operation is not valid: a `Create` of a
+/// task that already exists, or a `Delete` or `Update` of a task that does not exist. Errors are
+/// only returned for failures of the underlying storage.
+pub(super) async fn try_apply_op(txn: &mut dyn StorageTxn, op: &SyncOp) -> Result<bool> {
     match op {
         SyncOp::Create { uuid } => {
             // insert if the task does not already exist
-            if !txn.create_task(*uuid).await? {
-                return Err(Error::Database(format!("Task {uuid} already exists")));
-            }
+            txn.create_task(*uuid).await
         }
-        SyncOp::Delete { ref uuid } => {
-            if !txn.delete_task(*uuid).await? {
-                return Err(Error::Database(format!("Task {uuid} does not exist")));
-            }
-        }
+        SyncOp::Delete { uuid } => txn.delete_task(*uuid).await,
         SyncOp::Update {
-            ref uuid,
-            ref property,
-            ref value,
+            uuid,
+            property,
+            value,
             timestamp: _,
         } => {
             // update if this task exists, otherwise ignore
             if let Some(mut task) = txn.get_task(*uuid).await? {
                 match value {
-                    Some(ref val) => task.insert(property.to_string(), val.clone()),
+                    Some(val) => task.insert(property.to_string(), val.clone()),
                     None => task.remove(property),
                 };
                 txn.set_task(*uuid, task).await?;
+                Ok(true)
             } else {
-                return Err(Error::Database(format!("Task {uuid} does not exist")));
+                Ok(false)
             }
         }
     }
-
-    Ok(())
 }
 
 #[cfg(test)]
